@@ -35,6 +35,7 @@ func init() {
 			ruleEndpointIsAnEmptySuffix(c, "R19")
 			ruleInstallsAreCounted(c, "R20")
 			ruleSplitPointAutomaton(c, "R21")
+			ruleRegexpSplitOnRuneBoundary(c, "R22")
 		},
 	})
 }
